@@ -124,51 +124,61 @@ def r1(ctx):
 
 
 def r2(ctx):
+    """the gates, evaluated (K6') on the three states of the map entry: absent, open with sync off, open with sync on"""
+    from . import feval as E
     f = ctx.facts
-    g = f.body("actor::OpenReplicas::get_mut")
-    ctx.touch(g)
-    ps = P.explore(g)
-    ok = len(ps) == 1 and ps[0].ret[0] == "call" and ps[0].ret[1] in ("context", "ok_or_else", "ok_or", "with_context")
-    if ok:
-        t = ps[0].ret[2]
-        src = [o for o in trace(g, t["a"][0], through_calls=False)]
-        ok = any(o.kind == "call" and o.data["f"].get("name") == "get_mut" and "HashMap" in o.data["f"].get("full", "") and
-                 {origin_summary(x) for x in trace(g, o.data["a"][1])} == {"arg:namespace"} for o in src)
-    ctx.check(ok, "C14.R2", g.path, "err-iff-absent", "get_mut = map.get_mut(namespace).context(..): Err exactly when the document is not open", g.sp)
-    r = f.body("actor::OpenReplicas::replica_if_syncing")
-    ctx.touch(r)
-    okp = 0
-    for p in P.explore(r):
-        if p.ret[0] == "variant" and p.ret[1] == "Ok":
-            okp += 1
-            gm = [v for k, v in p.decisions if k[0] == "discr" and "get_mut" in k[1]]
-            sy = None
-            for k, v in p.decisions:
-                kk, neg = k, False
-                while kk[0] == "not":
-                    kk, neg = kk[1], not neg
-                if kk[0] == "place" and kk[1].endswith(".sync"):
-                    sy = bool(v) != neg
-            ctx.check(gm == [0] and sy is True, "C14.R2", r.path, "ok-only-if-open-and-sync",
-                      "Ok path: get_mut=%s, sync=%s (%s)" % (gm, sy, P.fmt_decisions(p)), r.sp)
-    ctx.check(okp >= 1, "C14.R2", r.path, "has-ok-path", "%d Ok paths" % okp, r.sp)
-    rp = f.body("actor::OpenReplicas::replica")
-    ctx.touch(rp)
-    ens = Ensures(f, r"actor::OpenReplicas::get_mut$")
-    ok, why = ens.ensures_body(rp)
-    ctx.check(ok, "C14.R2", rp.path, "ok-only-if-open", why, rp.sp)
-    eo = f.body("actor::OpenReplicas::ensure_open")
-    ctx.touch(eo)
-    rows = {}
-    for p in P.explore(eo):
-        v = [vv for k, vv in p.decisions if k[0] == "call" and k[1] == "is_open"]
-        rows[v[0] if v else None] = p.ret[1] if p.ret[0] == "variant" else str(p.ret[:2])
-    ctx.check(rows == {1: "Ok", 0: "Err"}, "C14.R2", eo.path, "ok-iff-open", "%s" % rows, eo.sp)
-    io = f.body("actor::OpenReplicas::is_open")
-    ctx.touch(io)
-    ck = [t for _, t in io.calls() if t["f"].get("name") == "contains_key"]
-    ctx.check(len(ck) == 1 and ck[0]["d"]["l"] == 0, "C14.R2", io.path, "is-contains_key", "is_open = map.contains_key(namespace)", io.sp)
-    ctx.floor("C14.R2", 6)
+    OR = "actor::OpenReplica"
+    spec = {
+        # gate: (result when absent, when open/sync off, when open/sync on); R = a Replica built on this document's info
+        "get_mut": ("Err", "Ok(&state)", "Ok(&state)"),
+        "replica": ("Err", "Ok(R)", "Ok(R)"),
+        "replica_if_syncing": ("Err", "Err", "Ok(R)"),
+        "ensure_open": ("Err", "Ok", "Ok"),
+        "is_open": ("0", "1", "1"),
+    }
+    for fn, want in spec.items():
+        b = f.body("actor::OpenReplicas::" + fn)
+        ctx.touch(b)
+        got = []
+        for kind, s in (("vacant", 0), ("occupied", 0), ("occupied", 1)):
+            log = _Log()
+            base = _map_oracle(E, kind, log)
+
+            def oracle(k, name, payload, site, base=base, log=log):
+                if k == "call":
+                    t, a, it = payload
+                    if callee_matches(t, r"sync::Replica::<.*>::new$"):
+                        log.append(("Replica::new", [it.tokname(x) for x in a]))
+                        return E.Tok("replica")
+                return base(k, name, payload, site)
+            heap = {"self": E.Tok("map"), "state": E.struct(f, OR, info=E.Tok("info0"), sync=E.Int(s), handles=E.Int(1)), "ns": E.Tok("ns"), "store": E.Tok("store")}
+            nargs = len([l for l in b.locals[1:] if l.get("arg")]) if False else None
+            args = [E.href("self"), E.Tok("ns") if not b.locals[2]["ty"].startswith("&") else E.href("ns")]
+            if fn in ("replica", "replica_if_syncing"):
+                args.append(E.href("store"))
+            try:
+                ret, hp, ev = E.run(f, b.path, args, heap, oracle)
+                d = E.describe(ret, f)
+                news = [x for x in log if x[0] == "Replica::new"]
+                if d == "Ok(replica)":
+                    # the replica is built on this document's state: its info and the capability id of that info
+                    good = len(news) == 1 and news[0][1][-1] == "info0" and "info0.capability" in news[0][1][0] and "store" in news[0][1][0]
+                    d = "Ok(R)" if good else "Ok(replica built from %s)" % (news,)
+                elif d.startswith("Err"):
+                    d = "Err"
+                elif d == "Ok(())":
+                    d = "Ok"
+                if any(x[0] in ("insert", "remove") for x in log):
+                    d += "+mutates-map"
+                st = hp["state"]
+                if kind == "occupied" and (E.describe(E.field(f, st, OR, "sync"), f), E.describe(E.field(f, st, OR, "handles"), f)) != (str(s), "1"):
+                    d += "+changes-state"
+                got.append(d)
+            except E.Unsupported as e:
+                got.append("UNSUPPORTED-FORM: %s" % e)
+        ctx.check(tuple(got) == want, "C14.R2", b.path, "gate-table",
+                  "(absent, open sync-off, open sync-on) -> %s; spec %s" % (tuple(got), want), b.sp)
+    ctx.floor("C14.R2", 5)
 
 
 def _map_oracle(E, kind_of_entry, log):
